@@ -263,28 +263,38 @@ def compile_refuted(ck):
 
 # ------------------------------------------------------------------------------------------------
 def mujoco_part(ck):
-    names = MUJOCO_QUICK if ck.tier == "quick" else MUJOCO_ALL
-    steps, resets = (30, 3) if ck.tier == "quick" else (120, 8)
+    # quick: three environments in depth (with the documented non-default constructor options) and, concurrently, every other
+    # environment briefly (default options, 10 steps, 2 resets); thorough: all of them in depth
+    if ck.tier == "quick":
+        jobs = [(MUJOCO_QUICK, 30, 3, True), ([n for n in MUJOCO_ALL if n not in MUJOCO_QUICK], 10, 2, False)]
+    else:
+        half = len(MUJOCO_ALL) // 2
+        jobs = [(MUJOCO_ALL[:half], 120, 8, True), (MUJOCO_ALL[half:], 120, 8, True)]
     env = dict(os.environ)
     env.pop("JAX_ENABLE_X64", None)
-    cmd = [sys.executable, "-m", "harness.sub_c17_mujoco", "--envs", ",".join(names), "--steps", str(steps),
-           "--resets", str(resets), "--seed", str(ck.seed), "--options"]   # incl. the documented non-default constructor options
     t0 = time.time()
-    try:
-        p = subprocess.run(cmd, cwd=str(VERIF), env=env, stdout=subprocess.PIPE, stderr=subprocess.STDOUT, text=True,
-                           timeout=900 if ck.tier == "quick" else 5400)
-        out = p.stdout
-    except subprocess.TimeoutExpired as e:
-        out = (e.stdout or b"").decode() if isinstance(e.stdout, bytes) else (e.stdout or "")
-        ck.violations.append(Violation("correspondence-broken", "C17/mujoco/harness", "MuJoCo differential subprocess timed out",
-                                       extra={"log": out[-2000:]}))
-        return
-    m = re.search(r"^RESULT (.*)$", out, re.M)
-    if not m:
-        ck.violations.append(Violation("correspondence-broken", "C17/mujoco/harness", "MuJoCo differential subprocess produced no result",
-                                       extra={"log": out[-3000:]}))
-        return
-    res = json.loads(m.group(1))
+    procs = []
+    for names, steps, resets, options in jobs:
+        cmd = [sys.executable, "-m", "harness.sub_c17_mujoco", "--envs", ",".join(names), "--steps", str(steps),
+               "--resets", str(resets), "--seed", str(ck.seed)] + (["--options"] if options else [])
+        procs.append(subprocess.Popen(cmd, cwd=str(VERIF), env=env, stdout=subprocess.PIPE, stderr=subprocess.STDOUT, text=True))
+    res = {"envs": {}}
+    deadline = t0 + (1500 if ck.tier == "quick" else 5400)
+    for p in procs:
+        try:
+            out, _ = p.communicate(timeout=max(1.0, deadline - time.time()))
+        except subprocess.TimeoutExpired:
+            p.kill()
+            out, _ = p.communicate()
+            ck.violations.append(Violation("correspondence-broken", "C17/mujoco/harness", "MuJoCo differential subprocess timed out",
+                                           extra={"log": (out or "")[-2000:]}))
+            continue
+        m = re.search(r"^RESULT (.*)$", out or "", re.M)
+        if not m:
+            ck.violations.append(Violation("correspondence-broken", "C17/mujoco/harness", "MuJoCo differential subprocess produced no result",
+                                           extra={"log": (out or "")[-3000:]}))
+            continue
+        res["envs"].update(json.loads(m.group(1)).get("envs", {}))
     ck.extra_cov["mujoco"] = {"wall_s": round(time.time() - t0, 1), "envs": {}}
     for name, r in res.get("envs", {}).items():
         summ = {"compile_s": r.get("compile_s"), "wall_s": r.get("wall_s"), "n_steps": r.get("n_steps"), "failed": []}
